@@ -20,7 +20,21 @@ fn expected_fp(mode: &str, genuine_peer: &Certificate, nobody: &Certificate, rng
     let raw = match mode {
         "none" => return None,
         "match" => dtls::fingerprint(genuine_peer),
-        "mismatch" => dtls::fingerprint(nobody),
+        "mismatch" => match rng.below(3) {
+            // somebody else's certificate, or the genuine digest with its last / first byte altered
+            0 => dtls::fingerprint(nobody),
+            1 => {
+                let mut f = dtls::fingerprint(genuine_peer);
+                let last = f.pop().unwrap();
+                f.push(if last == '0' { '1' } else { '0' });
+                f
+            }
+            _ => {
+                let f = dtls::fingerprint(genuine_peer);
+                let first = f.chars().next().unwrap();
+                format!("{}{}", if first == 'F' { 'E' } else { 'F' }, &f[1..])
+            }
+        },
         x => panic!("bad fp mode {x}"),
     };
     // free presentation choices of the SDP attribute: hex case
@@ -77,8 +91,23 @@ async fn run_scenario(sc: &Value, rng: &mut Rng) -> Value {
     let exp_c = expected_fp(fp_c_mode, &cert_s, &cert_x, rng);
     let exp_s = expected_fp(fp_s_mode, &cert_c, &cert_x, rng);
     // which certificate (and key) each endpoint really holds: its own, or the adversary's (impersonation)
-    let held_c = if sc["idC"].as_str() == Some("certM") { cert_m.clone() } else { cert_c.clone() };
-    let held_s = if sc["idS"].as_str() == Some("certM") { cert_m.clone() } else { cert_s.clone() };
+    // "stolen": the genuine party's certificate presented by somebody who only has the adversary's key
+    let stolen = |genuine: &Certificate| {
+        let mut c = Certificate::default();
+        c.certificate = genuine.certificate.clone();
+        c.private_key = cert_m.private_key.clone();
+        c
+    };
+    let held_c = match sc["idC"].as_str() {
+        Some("certM") => cert_m.clone(),
+        Some("stolen") => stolen(&cert_c),
+        _ => cert_c.clone(),
+    };
+    let held_s = match sc["idS"].as_str() {
+        Some("certM") => cert_m.clone(),
+        Some("stolen") => stolen(&cert_s),
+        _ => cert_s.clone(),
+    };
     let mut mrand = [0u8; 32];
     mrand.copy_from_slice(&rng.bytes(32));
 
